@@ -60,17 +60,7 @@ def gen(rng, tier):
     defs, top = sg.modularize(rng, ast, max_subs=3)
     if rng.random() < 0.1:
         # an alias sub-specification: a bare constant or a bare variable with a name of its own
-        leaves = sorted(set(json.dumps(x) for n_, a in defs + [['', top]] for x in sg.walk(a)
-                            if (x[0] == 'const' and x[1] >= 0) or x[0] == 'var'))
-        if leaves:
-            leaf = json.loads(leaves[rng.randrange(len(leaves))])
-
-            def al(n):
-                if n == leaf:
-                    return ['ref', 'q0']
-                return sg.with_children(n, [al(c) for c in sg.children(n)])
-            defs = [['q0', leaf]] + [[n_, al(a)] for n_, a in defs]
-            top = al(top)
+        defs, top = sg.add_alias(rng, defs, top, 'q0')
     extra = None
     if rng.random() < 0.3:
         for _ in range(50):
